@@ -257,9 +257,9 @@ NOT_COVERED = {
             'flatten (+ off_col / + off_line overflow, design-phase defect D6), rewrite, adjust_mappings, range bitfield writer (D4), decode_hermes', 'allocation in proportion to the input; wall-clock (only termination is proved)'],
     'C08': ['the agreement theorems quantify over index maps whose sections are as the property describes them at every level of nesting (offsets strictly increasing, distinct generated positions inside a section, every moved token before the next offset); other index maps: bounded stand-ins index_flatten / index_nested', 'the hypotheses of the agreement lemma are the postconditions of executed functions; no concrete witness is constructed inside Verus (Vec values cannot be built in spec code), the stand-ins index_flatten / index_nested run the real functions on such inputs'],
     'C14': ['DecodedMap::get_original_function_name dispatch (line != 0 => nothing for Hermes maps): bounded', 'stability under serialise/decode: both halves are proved over the raw document (SourceMapHermes::as_raw_sourcemap writes x_facebook_sources verbatim, u22; decode_hermes keeps it and reads the function maps from it, u16); that serde carries x_facebook_sources through the JSON text is bounded (hermes_scope)'],
-    'C01': ['the serde_json layer (writer and reader of the JSON text, serde attributes): bounded stand-in roundtrip', 'the one closure of as_raw_sourcemap that collects the contents (captures a mutable local): behind an assumed contract'],
+    'C01': ['the serde_json layer (writer and reader of the JSON text, serde attributes): bounded stand-in roundtrip'],
     'C02': ['the six `let` lines of decode_regular that unpack the raw document (checked textually, not verified)', 'termination of the decode_index / decode_common recursion (bounded by serde_json)'],
-    'C03': ['the serde skip_serializing_if attributes (that a None field writes no key): bounded stand-in raw_keys', 'the one closure of as_raw_sourcemap that collects the contents (captures a mutable local): behind an assumed contract'],
+    'C03': ['the serde skip_serializing_if attributes (that a None field writes no key): bounded stand-in raw_keys'],
     'C07': ['decode_regular handing the two strings to the loop (the six `let` lines) and the serde layer: bounded stand-in rmi_roundtrip; the writer side (as_raw_sourcemap puts the reference rangeMappings value under its key, none without a range token) and the token-level round trip with flags are proved'],
     'C11': ['values of magnitude >= 2^62 (13-digit overflows) are only proved panic-free'],
     'C12': ['the JSON layer and the base64 reader themselves (uninterpreted functions of the bytes; their chunking independence is assumed): bounded stand-in header runs the real ones', 'SourceView-level and writer-side entry points (to_writer, to_data_url)'],
